@@ -1,2 +1,7 @@
 pub mod c01;
+pub mod c12;
+pub mod c15;
+pub mod c16;
+pub mod c19;
+pub mod c20;
 pub mod common;
